@@ -83,7 +83,7 @@ class Runner:
                       "inputs_valid": 0, "inputs_invalid": 0, "inputs_fail": 0, "nontrivial_runs": 0,
                       "races_in_accepted": 0, "order_mismatch": 0, "order_runs": 0,
                       "rejected_racy": 0, "rejected_race_free": 0, "rejected_no_nontrivial_input": 0,
-                      "rejected_race_free_samples": [], "unsupported": 0, "other_error_kinds": {}}
+                      "rejected_race_free_samples": [], "unsupported": 0, "other_error_kinds": {}, "interp_timeouts": 0}
 
     def close(self):
         for d in (self.fp, self.trav):
@@ -222,7 +222,13 @@ class Runner:
         found_race, nontriv_runs = None, 0
         for dsc in self.inputs(ir, cfg_types, n_random):
             inp = export.render_input(dsc)
-            o = self.fp.fp(name, inp, "seq")
+            try:
+                o = self.fp.fp(name, inp, "seq")
+            except TimeoutError:
+                st["interp_timeouts"] += 1   # job dumped under .scratch/c09/; the driver was restarted
+                self.fp.reset()
+                self.fp.define(ex)
+                continue
             st["inputs_run"] += 1
             if o[0] != "done":
                 st["inputs_invalid" if o[0] == "invalid" else "inputs_fail"] += 1
@@ -242,7 +248,13 @@ class Runner:
             if outcome == "accept" and nontriv:
                 # every execution order gives the sequential result
                 for order in ("rev", "rot"):
-                    o2 = self.fp.fp(name, inp, order)
+                    try:
+                        o2 = self.fp.fp(name, inp, order)
+                    except TimeoutError:
+                        st["interp_timeouts"] += 1
+                        self.fp.reset()
+                        self.fp.define(ex)
+                        continue
                     st["order_runs"] += 1
                     if o2[0] != "done" or o2[1] != o[1] or o2[2] != o[2]:
                         st["order_mismatch"] += 1
